@@ -45,6 +45,11 @@ def run(ctx):
     # elements a later operator or separator sees
     from rules.c02 import t7
     t7(_Renamed(ctx, 'S5.12'), prog, T)
+    # S5.13 "further nesting arises only through parentheses", at any depth and whatever sequences are open: `(` pushes exactly one
+    # RootNode and does nothing else, `)` collapses and pops exactly one level, the end accounts for what is left - the C13 S13.3
+    # parenthesis accounting, reported here: a depth guard that measures root_stack.len() counts the open sequences as levels
+    from rules.c13 import s13_3
+    s13_3(_Renamed(ctx, 'S5.13'), prog)
     from rules import toksem
     try:
         toksem.check_whitespace(_OnlyInstances(ctx, 'S5.11', ['Whitespace-token']), prog, 'S5.11')
